@@ -21,7 +21,7 @@ def lops : Ops Nat Nat where
   sortPoints s := if s % 20 == 5 then .error "ValueError" else .ok (s + 40)
   sortCells _ := .ok 90
 
-def lP : Pres Nat Nat := ⟨fun s => .int s, fun o => .int o, fun o => .list [.str "report", .int o]⟩
+def lP : Pres Nat Nat := ⟨fun s => .int s, fun o => .int o, fun o => .list [.str "report", .int o], .str "skipped"⟩
 
 def exc : Except String Nat → Res Val
   | .ok s => .ok (sideV lops lP s)
@@ -35,7 +35,8 @@ def lX : Ext := fun f args =>
     .ok (suiteV lops lP (lops.run a.toNat b.toNat))
   | "._mesh_fail_msg", [_, rp, .str w] => .ok (.list [.str "msg", rp, .str w])
   | "._mesh_fail_msg", [_, rp] => .ok (.list [.str "msg", rp])
-  | "call", [.str "rcb", v] => .ok v
+  | "call", [.str "rcb", .list l] => .ok (.list l)
+  | "call", [.str "rcb", .str _] => .ok (.str "skipped")
   | "extend_space_dimension_to", [.int d, .record [_, ("payload", .int a)]] => exc (lops.extend d.toNat a.toNat)
   | "strip_orphan_points", [.record [_, ("payload", .int a)]] => exc (lops.strip a.toNat)
   | "sort_points", [.record [_, ("payload", .int a)]] => exc (lops.sortPoints a.toNat)
